@@ -2,6 +2,10 @@ from props import *  # noqa: F401,F403
 
 rc_bin("c02_sched", ["harness/c02_flush_shutdown.cc"], lib=False, shadow=BATCH_SHADOW + READER_SHADOW, shadow_srcs=BATCH_SHADOW_SRCS + READER_SHADOW_SRCS, repo_srcs=BATCH_PLAIN)
 rc_bin("c02_provider", ["harness/c02_provider.cc"], lib=True)
+# MeterProvider::ForceFlush / Shutdown with the whole metrics SDK under the scheduler shim
+rc_bin("c02_psched", ["harness/c02_provider_sched.cc"], lib=False,
+       shadow=["api/include/opentelemetry/common/spin_lock_mutex.h"], shadow_globs=METRICS_SHADOW_GLOBS,
+       shadow_srcs_globs=METRICS_SHADOW_SRCS_GLOBS, repo_srcs_globs=METRICS_PLAIN_GLOBS)
 PROPS["C02"] = dict(
     level_text="Same schedule-controlled engine as C01, biased to control operations (concurrent ForceFlush callers incl. producers that flush right after producing, Shutdown racing flushes, repeated/cross-thread Shutdown, destruction-only shutdown, operations after shutdown, zero/finite/max timeouts, exporters whose Export/ForceFlush/Shutdown are slow or report failure). Oracles over logical stamps: a ForceFlush that returned true implies every record produced before its call was exported (Export returned) before it returned and the exporter's ForceFlush ran inside the window; exporter Shutdown exactly once; no exporter call after the first Shutdown returned; post-shutdown calls are prompt and effect-free; termination = no scheduler-detected deadlock and no step-budget overrun.",
     technique="generated schedules (weighted/uniform/PCT) over a deterministic scheduler shim (rapidcheck choice streams) + history-invariant oracle + provider-level model-based programs + periodic-reader scenarios",
@@ -14,5 +18,6 @@ PROPS["C02"] = dict(
         run("logger-provider", "c02_provider", "logger_provider", "rc", dict(procs=1, cases=3000), dict(procs=2, cases=15000)),
         run("meter-provider", "c02_provider", "meter_provider", "rc", dict(procs=2, cases=2000), dict(procs=3, cases=12000), deterministic=False),
         run("reader", "c02_sched", "reader_sched", "rc", dict(procs=4, cases=10000), dict(procs=6, cases=200000), asan_extra=SCHED_ASAN),
+        run("provider-sched", "c02_psched", "provider_sched", "rc", dict(procs=4, cases=6000), dict(procs=6, cases=120000), asan_extra=SCHED_ASAN),
     ],
 )
